@@ -174,6 +174,50 @@ func runC01(c *core.Ctx) {
 	c.Sample(map[string]string{"truncation": string(cases[len(cases)/2].in)})
 	c.Sample(map[string]string{"random": string(rnd[0])})
 
+	// several sources under one limit: every source by itself is subject to the limit, whatever the
+	// sources before it have consumed (exactly the limit, one less, one more, in one source or summed
+	// over two), also when the source that follows is nested ten, a thousand or a hundred thousand deep
+	{
+		exact := map[int][]string{1: {"#c"}, 2: {"scalar A"}, 3: {"scalar A #c"}, 5: {"enum E { A }"}, 7: {"type T { a: Int }"}, 4: {"scalar A scalar B"}}
+		var tails []string
+		for _, k := range []int{3, 10, 1000, 100000} {
+			tails = append(tails, "input I { a: X = "+strings.Repeat("[", k), "type T { a: "+strings.Repeat("[", k)+"Int", "input I { a: X = "+strings.Repeat("{k: ", k),
+				"input I { a: X = "+strings.Repeat("[", k)+"1"+strings.Repeat("]", k)+" }", strings.Repeat("scalar S ", k))
+		}
+		type ms struct{ args [][]byte }
+		var mss []ms
+		for l, firsts := range exact {
+			for _, f := range firsts {
+				for _, t := range tails {
+					for _, lim := range []int{l - 1, l, l + 1, 2 * l, 0} {
+						if lim < 0 {
+							continue
+						}
+						mss = append(mss, ms{[][]byte{[]byte("1"), []byte(strconv.Itoa(lim)), []byte("0" + f), []byte("0" + t)}})
+						mss = append(mss, ms{[][]byte{[]byte("1"), []byte(strconv.Itoa(lim)), []byte("0" + f), []byte("1" + f), []byte("0" + t)}})
+						mss = append(mss, ms{[][]byte{[]byte("1"), []byte(strconv.Itoa(2 * lim)), []byte("0" + f), []byte("0" + f), []byte("0" + t)}})
+					}
+				}
+			}
+		}
+		c.Pool.ParFor(len(mss), func(w, i int) {
+			impl := c.Impl(w, "pss", mss[i].args...)
+			if len(mss[i].args[len(mss[i].args)-1]) < 20000 {
+				if v, cur, none := c.Tie(w, "pss", impl, mss[i].args...); v == core.Violation {
+					c.Report(w, "pss", thm, mss[i].args, impl, cur, none)
+				}
+			}
+			// the deep tails have more tokens than any of these limits: under a limit the call ends with the limit error
+			lim, _ := strconv.Atoi(string(mss[i].args[1]))
+			last := string(mss[i].args[len(mss[i].args)-1])
+			if lim > 0 && (strings.Count(last, "[") >= 1000 || strings.Count(last, "{k:") >= 1000 || strings.Count(last, "scalar") >= 1000) && impl != "err L" {
+				c.ReportOracle("limit-not-applied-to-a-later-source", map[string]interface{}{"op": "pss", "args": hexArgs(mss[i].args[:len(mss[i].args)-1]), "limit": lim,
+					"first_source": string(mss[i].args[2]), "last_source_head": last[:min(60, len(last))], "implementation": impl[:min(200, len(impl))]})
+			}
+		})
+		c.Evals += int64(len(mss))
+		c.Count("multi_source_calls_around_an_exactly_used_limit", int64(len(mss)))
+	}
 	// runtime residue (measurement, not proof): maximal nesting at 64 KiB without limit, 8 MiB under limits
 	type big struct {
 		name  string
@@ -221,4 +265,3 @@ func runC01(c *core.Ctx) {
 		c.CheckCase(0, "pq", thm, []byte("0"), []byte("0"), []byte(bg.input))
 	}
 }
-
